@@ -353,6 +353,10 @@ PATHS = [(("key", "p"),), (("key", "p"), ("key", "q")), (("key", "p"), ("idx", 1
          (("key", "p"), ("key", "\uff4b\uff11")),
          # steps spelled like keywords of the grammar
          (("key", "p"), ("key", "AND")), (("key", "p"), ("key", "true")), (("key", "p"), ("key", "IN"), ("idx", 1)), (("key", "WITHIN"), ("key", "q")), (("key", "p"), ("key", "and")),
+         # step names that BEGIN with a quote without being a quoted step: names like any other
+         (("key", "p"), ("key", "'abc")), (("key", "p"), ("key", "'a'b'")), (("key", "'"),), (("key", "p"), ("key", "'a\\'")), (("key", "p"), ("key", "a'"), ("idx", 1)),
+         # ... and names that LOOK like a quoted step (the quotes belong to the name)
+         (("key", "p"), ("key", "'ab'")), (("key", "'ab'"),), (("key", "p"), ("key", "''")), (("key", "p"), ("key", "'a-b'"), ("idx", 1)),
          (("key", "p"), ("key", "k k"), ("idx", "*")), (("key", "p"), ("key", "k-k"), ("idx", "*"), ("key", "q")), (("key", "k k"), ("idx", 1))]
 OPS = ["=", "!=", "<", "<=", ">", ">=", "IN", "LIKE", "MATCHES", "ISSUBSET", "ISSUPERSET", "EXISTS"]
 
